@@ -256,6 +256,13 @@ def r9(ctx, prog):
     ctx.floor(R, 4)
 
 
+def r10(ctx, prog):
+    R = ctx.rule("C09.R10", "a page that is being abandoned stays never-delayed: draining the delayed list does not re-arm delayed free over MI_NEVER_DELAYED_FREE — otherwise the next "
+                            "remote free goes to the dying heap's delayed list, which nobody drains: the block (and its segment) is never released")
+    shared.rearm_respects_never(ctx, R, prog)
+    ctx.floor(R, 2)
+
+
 def run(ctx):
     ctx.explanation = ("Static decision of C09's code-shaped necessary conditions over every CFG path of the thread-exit, abandon, un-abandon and "
                        "reclaim functions: ordering (must-pass-through), never-after-publication, guards on adoption (atomic un-abandon result, "
@@ -264,7 +271,7 @@ def run(ctx):
     for c in (["REL"] if ctx.tier == "quick" else ["REL", "SEC", "DBG"]):
         prog = ctx.prog(c)
         n0 = len(ctx.instances)
-        r1(ctx, prog); r2(ctx, prog); r3(ctx, prog); r4(ctx, prog); r5(ctx, prog); r6(ctx, prog); r7(ctx, prog); r8(ctx, prog); r9(ctx, prog)
+        r1(ctx, prog); r2(ctx, prog); r3(ctx, prog); r4(ctx, prog); r5(ctx, prog); r6(ctx, prog); r7(ctx, prog); r8(ctx, prog); r9(ctx, prog); r10(ctx, prog)
         if c != "REL":
             for i in ctx.instances[n0:]:
                 i["site"] += " [%s]" % c
